@@ -86,6 +86,11 @@ TERMINATORS = ("endproc", "endfunc", "end")
 HEADER_EXT = ("(", "#", "private", "protected", "final", "override", "external", "forward")
 # stray top-level tokens: none of them starts a declaration, none is an identifier (each costs one error + one skipped token)
 JUNK = [")", "] )", "endif", ", ,", "=", "+ )", "endwhile", "else", ".", ") ] endfor", "* /", "until"]
+HEADER_SHAPED = ["( a : record", "( a : record\nb : int4", "( a : record ( tP )", "( a : refto", "( a : listof", "( a : sequence [ 1 .. 3 ] of",
+                 "( a : sequence [", "( a : proc (", "( a : func ( b : int4 ) return", "( a : ( cA , cB", "( a : [ 1 ..", "( a : int4 , b :",
+                 "( var a : int4 ; x", "( a : int4 ) return", "( a : int4 ) return record", "( a : int4 ) private x = 1", "( ) external 'a.dll' x",
+                 "# Evt ( a : record", "# Evt x = 1", "private final x = 1", "override ( a", "external", "external 'x.dll' forward y = 2",
+                 "forward [", "forward [ Transient", "forward type t : record", "forward const c =", "( a : record endrecord ) x = ["]
 EOF_ID = "eof-diagnostic-at-origin"
 EOF_WHAT = ("eof-diagnostic-at-origin: a statement/list error at the very end of a method body is reported with Range::default() "
             "(0:0:0:0 `Unexpected EOF`), i.e. on line 0 and not inside the method (parse_repeat_w_context / "
@@ -486,6 +491,12 @@ def gen_cases(ctx, hb=None):
             for _ in range((3 if q else 8) * reps):
                 nb = g.soup_lines(len(old), extending=True)
                 add("H", lines, apply_edit(lines, m, nb, nl), nl, m["first_line"], m["n_lines"], len(nb) + 2)
+            if bi < len(hand) + (5 if q else 60):
+                # parameter lists left open inside each type form (the type parsers run on the UNSLICED token stream there)
+                for gb in HEADER_SHAPED:
+                    if garbage_ok(gb, extending=True):
+                        nb = [" " + l for l in gb.split("\n")]
+                        add("H", lines, apply_edit(lines, m, nb, nl), nl, m["first_line"], m["n_lines"], len(nb) + 2)
         if ms:
             m = max(ms, key=lambda x: x["first_line"])
             cut = m["first_line"] + m["n_lines"] - 1
